@@ -393,29 +393,41 @@ var ruleExecFresh = &Rule{
 				continue
 			}
 			n := 0
-			for _, b := range fn.Blocks {
-				for _, ins := range b.Instrs {
-					ci, ok := ins.(ssa.CallInstruction)
-					if !ok {
-						continue
-					}
-					c := ci.Common()
-					var recv ssa.Value
-					if c.IsInvoke() {
-						continue
-					}
-					if sc := c.StaticCallee(); sc != nil && sc.Signature.Recv() != nil && len(c.Args) > 0 && isExecPtr(c.Args[0].Type()) {
-						recv = c.Args[0]
-					}
-					if recv == nil {
-						continue
-					}
-					n++
-					key := fmt.Sprintf("exec.%s evaluates with a fresh Executor (call to %s)", name, c.StaticCallee().Name())
-					if p.isFreshValue(fn, recv, 0) {
-						out.ok(key, p.pos(ins.Pos()), fnName(fn), "receiver is allocated by this call")
-					} else {
-						out.viol(key, p.pos(ins.Pos()), fnName(fn), "the Executor used by "+name+" is not provably allocated by this call: state could be shared between calls")
+			// the entry point's own body, and the prologue helpers it shares
+			// with its siblings
+			hosts := []*ssa.Function{fn}
+			eset := p.entrySet()
+			for _, hc := range p.allCalls(fn) {
+				if h := hc.Call.StaticCallee(); h != nil && eset[h] && h != fn && h.Blocks != nil {
+					hosts = append(hosts, h)
+				}
+			}
+			for _, host := range hosts {
+				fn := host
+				for _, b := range fn.Blocks {
+					for _, ins := range b.Instrs {
+						ci, ok := ins.(ssa.CallInstruction)
+						if !ok {
+							continue
+						}
+						c := ci.Common()
+						var recv ssa.Value
+						if c.IsInvoke() {
+							continue
+						}
+						if sc := c.StaticCallee(); sc != nil && sc.Signature.Recv() != nil && len(c.Args) > 0 && isExecPtr(c.Args[0].Type()) {
+							recv = c.Args[0]
+						}
+						if recv == nil {
+							continue
+						}
+						n++
+						key := fmt.Sprintf("exec.%s evaluates with a fresh Executor (call to %s)", name, c.StaticCallee().Name())
+						if p.isFreshValue(fn, recv, 0) {
+							out.ok(key, p.pos(ins.Pos()), fnName(fn), "receiver is allocated by this call")
+						} else {
+							out.viol(key, p.pos(ins.Pos()), fnName(fn), "the Executor used by "+name+" is not provably allocated by this call: state could be shared between calls")
+						}
 					}
 				}
 			}
